@@ -21,7 +21,7 @@
 (***************************************************************************)
 EXTENDS Naturals, Integers, Sequences, FiniteSets, TLC
 
-CONSTANTS NRows, K, T, PreSites, PostSites, MaxEdges, MaxEdits
+CONSTANTS NRows, K, T, PreSites, PostSites, MaxEdges, MaxEdits, MaxTrainables
 
 Rows == 0..(NRows - 1)
 Types == {"P", "Q"}
@@ -58,11 +58,12 @@ Range(s) == {s[i] : i \in DOMAIN s}
 Wiring == obs = <<>> /\ nedit = 0
 Editing == obs = <<>> /\ nedit < MaxEdits
 \* connect(pre compartment, post compartment, Type())
-Connect(pre, post, ty) ==
-  /\ Wiring /\ NE < MaxEdges
+ConnectOp(pre, post, ty) ==
   /\ edges' = Append(edges, [pre |-> pre, post |-> post, ty |-> ty])
   /\ w' = Append(w, 1) /\ s0' = Append(s0, 0)
   /\ UNCHANGED <<recs, stim, ecl, nin, nedit, obs, tr>>
+\* (the bounded model wires first and edits afterwards; a recorded history may interleave them: Trace_Net.tla uses ConnectOp)
+Connect(pre, post, ty) == Wiring /\ NE < MaxEdges /\ ConnectOp(pre, post, ty)
 \* <edge view>.set("<ty>_w", x)
 SetW(x, ev) ==
   /\ Editing /\ ViewEdges(ev) # {}
@@ -91,7 +92,7 @@ DelRecE(ev) ==
 \* <type view>.edge("all").make_trainable("<ty>_w", x) : one value per synapse
 \* What is simulated is the table weight overridden by the trainables in the order they were made (EffW below).
 TrainW(x, ev, each) ==
-  /\ Editing /\ ev.kind # "rows" /\ ViewEdges(ev) # {} /\ Len(tr) < 2
+  /\ Editing /\ ev.kind # "rows" /\ ViewEdges(ev) # {} /\ Len(tr) < MaxTrainables
   /\ tr' = Append(tr, [groups |-> IF each THEN {{e} : e \in ViewEdges(ev)} ELSE {ViewEdges(ev)}, val |-> x])
   /\ nedit' = nedit + 1 /\ UNCHANGED <<edges, w, s0, recs, stim, ecl, nin, obs>>
 \* <view>.delete_trainables(): every sharing group loses the synapses of the view; emptied groups and trainables disappear
